@@ -40,6 +40,10 @@ def cases(tier, seed):
             "gtol": float(gen.pick(rng, [1e-9, 1e-5, 1e-5, 1e2])),
             "cb": "never",
         }
+        if i % 13 == 12:
+            # scale: dimensions and memories larger than the bulk of the cases
+            ps["n"] = int(rng.integers(25, 61))
+            cfg["maxcor"] = int(rng.integers(11, 31))
         s = "packaged" if rng.random() < 0.2 else float(np.exp(rng.uniform(np.log(1e-3), np.log(1e3))))
         if i % 4 == 3:
             # finite-difference gradients: with s a power of two the scaling commutes with the differencing bit for bit
